@@ -105,6 +105,15 @@ pub fn doc_depth(d: &Document) -> usize {
     m
 }
 
+/// A document deeper and longer than most generated ones (used to check that the compiler's
+/// reached figures are those of the last parse, not a running maximum).
+const WARMUP: &str = "query W($v: [[[[Int]]]] = [[[[1, 2, 3]]]]) { a { b { c { d { e { f { g(x: {y: {z: [[[1]]]}}) { h i j k l m n o p q r s t u v w x y z } } } } } } } }";
+
+fn fixed_schema() -> &'static apollo_compiler::validation::Valid<apollo_compiler::Schema> {
+    static S: std::sync::OnceLock<apollo_compiler::validation::Valid<apollo_compiler::Schema>> = std::sync::OnceLock::new();
+    S.get_or_init(|| apollo_compiler::Schema::parse_and_validate("type Query { a: Query b: Int }", "s.graphql").expect("fixed schema"))
+}
+
 struct Case {
     text: String,
     n: Option<usize>,
@@ -235,6 +244,22 @@ fn check_case(case: &Case, ctx: &mut Ctx) -> Outcome {
             ));
         }
     }
+    if let (Some(d), true) = (d, case.n.map(|n| l > n).unwrap_or(false)) {
+        // grammatical input cut short by the token limit: the parsed prefix is never nested deeper than
+        // the whole document, so a recursion-limit error needs d > r and the mark cannot exceed min(d, r+1)
+        if recursion_limit_hit && d <= r {
+            fails.push((
+                "C04|recursion|limit-error-iff|spurious-under-token-limit".into(),
+                format!("recursion limit {} with token limit {:?}: the whole document has reference depth {} but a recursion-limit error is reported for {:?}", r, case.n, d, src),
+            ));
+        }
+        if p.recursion_high > d.min(r + 1) {
+            fails.push((
+                "C04|recursion|high-water|over-under-token-limit".into(),
+                format!("recursion limit {} with token limit {:?}: the whole document has reference depth {}, high-water mark {} for {:?}", r, case.n, d, p.recursion_high, src),
+            ));
+        }
+    }
     let _ = limit_positions;
 
     // ---- standalone entry points: limit error => L > n
@@ -264,6 +289,50 @@ fn check_case(case: &Case, ctx: &mut Ctx) -> Outcome {
         }
         if cp.tokens_reached() != p.token_high {
             fails.push(("C04|compiler|tokens_reached".into(), format!("tokens_reached() = {} but the parser's high-water mark is {} for {:?}", cp.tokens_reached(), p.token_high, src)));
+        }
+        // the figures are documented as those of the LAST parse call: reuse one Parser value after a
+        // deeper and longer document (through another parse method) and compare again
+        let _ = cp.parse_ast(WARMUP, "warmup.graphql");
+        let _ = cp.parse_ast(src, "doc.graphql");
+        if cp.recursion_reached() != p.recursion_high || cp.tokens_reached() != p.token_high {
+            fails.push((
+                "C04|compiler|reached-after-reuse".into(),
+                format!("after parsing another document first, recursion_reached()/tokens_reached() = {}/{} but the parser's marks for this document are {}/{} for {:?}", cp.recursion_reached(), cp.tokens_reached(), p.recursion_high, p.token_high, src),
+            ));
+        }
+        // standalone entry points of the compiler parser report the standalone parser's marks
+        for e in [Entry::Type, Entry::SelectionSet] {
+            if let Ok(ps) = crate::runner::catch(|| parse::parse(e, src, case.n, case.r)) {
+                let src2 = src.to_string();
+                let got = crate::runner::catch(|| {
+                    let mut cq = apollo_compiler::parser::Parser::new();
+                    if let Some(n) = case.n {
+                        cq = cq.token_limit(n);
+                    }
+                    if let Some(rr) = case.r {
+                        cq = cq.recursion_limit(rr);
+                    }
+                    let _ = cq.parse_ast(WARMUP, "warmup.graphql");
+                    match e {
+                        Entry::Type => {
+                            let _ = cq.parse_type(&src2, "t.graphql");
+                        }
+                        _ => {
+                            let schema = fixed_schema();
+                            let _ = cq.parse_field_set(schema, apollo_compiler::name!("Query"), &src2, "fs.graphql");
+                        }
+                    }
+                    (cq.recursion_reached(), cq.tokens_reached())
+                });
+                if let Ok((rr, tr)) = got {
+                    if rr != ps.recursion_high || tr != ps.token_high {
+                        fails.push((
+                            format!("C04|compiler|reached-standalone|{}", e.name()),
+                            format!("compiler {} reports recursion/tokens reached {}/{} but the parser's marks are {}/{} for {:?}", e.name(), rr, tr, ps.recursion_high, ps.token_high, src),
+                        ));
+                    }
+                }
+            }
         }
     }
 
